@@ -62,9 +62,17 @@ def job_threads(args):
     if any("cli" in s for s in specs):
         scratch = tempfile.mkdtemp(prefix="j2m-sim-", dir="/dev/shm" if __import__("os").path.isdir("/dev/shm") else None)
     try:
-        fns = [(_cli_fn(s, scratch) if "cli" in s else
-                (lambda s=s: outcome(full, s["models"], s["options"], s["options"].get("structure", "flat"))))
-               for s in specs]
+        def lib_fn(s):
+            if "before" in s:
+                # a pooled worker thread: it ran another generation (possibly one that raised) before this one
+                def run_both(s=s):
+                    b = s["before"]
+                    outcome(full, b["models"], b["options"], b["options"].get("structure", "flat"))
+                    return outcome(full, s["models"], s["options"], s["options"].get("structure", "flat"))
+                return run_both
+            return lambda s=s: outcome(full, s["models"], s["options"], s["options"].get("structure", "flat"))
+
+        fns = [(_cli_fn(s, scratch) if "cli" in s else lib_fn(s)) for s in specs]
         results = baton.run(fns, timeout=args.get("timeout", 100))
     finally:
         if scratch:
@@ -144,6 +152,21 @@ def make_run(seed, i):
         for t in range(n):
             if "cli" not in specs[t] and specs[t]["options"].get("str_types") == "default":
                 specs[t]["options"]["str_types"] = ["int", "float", "bool"]
+    if rng.random() < 0.10:
+        # a re-used worker thread: before its pipeline it runs another generation on the same thread - a nested render
+        # of a document with shared sub-models (non-empty reference mapping), which often raises midway because of a key
+        # that has no identifier characters.  The judged outcome is that of the second generation only.
+        t = rng.randrange(n)
+        if "cli" not in specs[t]:
+            wb = gen_workload(seeds.derive(seed, PROP, i, "before", t), structures=["nested"], p_nested=0.5, p_list_obj=0.25,
+                              n_shapes=rng.randint(3, 5), depth=3, p_variant=0.0, n_models=1, p_missing=0.0,
+                              width=rng.randint(2, 4), bulk=0, key_styles=["snake", "odd"])
+            ob = dict(wb["options"], structure="nested")
+            specs[t] = dict(specs[t], before={"models": wb["models"], "options": ob})
+            if rng.random() < 0.5:
+                # the judged generation works on the same document, flat
+                specs[t]["models"] = wb["models"]
+                specs[t]["options"] = dict(ob, structure="flat")
     srng = seeds.derive(seed, PROP, i, "schedule")
     sched = {"seed": srng.getrandbits(48), "mean_gap": srng.choice([2, 3, 10, 30, 100, 300, 1000, 3000]),
              "p_target": srng.choice([0.0, 0.2, 0.5]), "p_first": srng.choice([0.0, 0.3, 0.7])}
@@ -229,7 +252,7 @@ def minimise(pool, run, res, refs, bad):
     # 1. degenerate schedule: the failing pipeline alone on one worker thread, no switch
     single = {"specs": [spec]}
     r1, o1 = evaluate(pool, single, replay={"first": 0, "switches": [], "handoffs": {}})
-    if judged(o1) and mismatches(r1, o1["outcomes"]) and "cli" in spec:
+    if judged(o1) and mismatches(r1, o1["outcomes"]) and ("cli" in spec or "before" in spec):
         return single, {"first": 0, "switches": [], "handoffs": {}}, r1, o1, [0]
     if judged(o1) and mismatches(r1, o1["outcomes"]):
         def test_batch(cands):
@@ -341,6 +364,9 @@ def run(ctx):
                     continue
                 reported.add(key0)
                 mrun, rp, rr, oo, bad2 = minimise(pool, r, res, refs[i], bad)
+                if not bad2 or rr[bad2[0]] == oo["outcomes"][bad2[0]]:
+                    # the minimised form does not fail (any more): report the original run as it is
+                    mrun, rp, rr, oo, bad2 = r, res["schedule"], refs[i], res, bad
                 t = bad2[0]
                 key = violation_key(rr[t], oo["outcomes"][t])
                 rep.violation(key, {
